@@ -268,3 +268,26 @@ Definition write_private (c : cothority) : cothority :=
   {| co_suite_known := co_suite_known c; co_pub := co_pub c; co_priv := co_priv c;
      co_addr := co_addr c; co_host := co_host c; co_port := co_port c; co_desc := co_desc c;
      co_url := co_url c; co_tlskey := co_tlskey c; co_srv := to_map (co_srv c) |}.
+
+(* ---------- roster files: Roster.Toml, WriteTomlConfig / ReadTomlConfig (utils.go:16-43),
+   RosterToml.Roster (tree.go:1006-1035) -------------------------------------------
+   A RosterToml holds the roster's ID field AS IT IS (whether or not it is the id
+   NewRoster would derive) and, per member, only the public key text and the address
+   (network.ServerIdentityToml).  Reading it back builds &Roster{ID: rot.ID, List: ids}:
+   the written id is carried through, the identities are bare.  (A key text that does
+   not parse is logged and yields a nil key: not generated, not modelled.) *)
+Record roster_toml := { rt_id : bytes; rt_list : list (key * bytes) }.
+
+Definition roster_to_toml (id : bytes) (ids : list identity) : roster_toml :=
+  {| rt_id := id; rt_list := map (fun i => (i_pub i, i_addr i)) ids |}.
+
+Definition bare_identity (k : key) (addr : bytes) : identity :=
+  {| i_pub := k; i_priv := None; i_addr := addr; i_desc := []; i_url := []; i_srv := [] |}.
+
+Definition strip_identity (i : identity) : identity := bare_identity (i_pub i) (i_addr i).
+
+Definition roster_of_toml (t : roster_toml) : gres :=
+  GOk (map (fun e => bare_identity (fst e) (snd e)) (rt_list t)) (RId (rt_id t)).
+
+Definition roster_file_roundtrip (id : bytes) (ids : list identity) : gres :=
+  roster_of_toml (roster_to_toml id ids).
